@@ -574,7 +574,68 @@ pub fn case_count(tier: crate::runner::Tier) -> u64 {
     small_shapes(tier).len() as u64
 }
 
+/// The same attributes with one object count changed (`sel` picks which).
+pub fn sibling(attrs: &DifficultyAttributes, sel: u64) -> DifficultyAttributes {
+    let mut out = attrs.clone();
+    match &mut out {
+        DifficultyAttributes::Osu(a) => match sel % 4 {
+            0 if a.n_sliders > 0 => {
+                a.n_large_ticks += 1;
+                a.max_combo += 1;
+            }
+            1 if a.n_sliders > 0 => {
+                a.n_sliders -= 1;
+                a.n_circles += 1;
+                a.max_combo = a.max_combo.saturating_sub(1);
+            }
+            2 => {
+                a.n_circles += 1;
+                a.max_combo += 1;
+            }
+            _ => {
+                a.n_sliders += 1;
+                a.max_combo += 2;
+            }
+        },
+        DifficultyAttributes::Taiko(a) => a.max_combo = if sel % 2 == 0 { a.max_combo + 1 } else { a.max_combo.saturating_sub(1) },
+        DifficultyAttributes::Catch(a) => match sel % 3 {
+            0 => a.n_tiny_droplets += 1,
+            1 if a.n_fruits > 0 => {
+                a.n_fruits -= 1;
+                a.n_droplets += 1;
+            }
+            _ => a.n_fruits += 1,
+        },
+        DifficultyAttributes::Mania(a) => match sel % 3 {
+            0 if a.n_hold_notes < a.n_objects => {
+                a.n_hold_notes += 1;
+                a.max_combo += 3;
+            }
+            1 if a.n_hold_notes > 0 => {
+                a.n_hold_notes -= 1;
+                a.max_combo = a.max_combo.saturating_sub(3);
+            }
+            _ => {
+                a.n_objects += 1;
+                a.max_combo += 1;
+            }
+        },
+    }
+    out
+}
+
 fn evaluate(ctx: &mut Ctx, mode: GameMode, attrs: &DifficultyAttributes, i: &In) {
+    // One request in four is directly preceded (same thread) by the same request for attributes that differ in a single
+    // object count: anything remembered between calls under too coarse a key is handed to the judged call.
+    let sel = crate::rng::hash_str(&format!("{i:?}"));
+    if sel % 4 == 0 {
+        let sib = sibling(attrs, sel / 4);
+        let _ = guard(|| {
+            let mut b = build(&sib, mode, i);
+            b.generate_state()
+        });
+        ctx.count("neighbour_calls_before_judged_call");
+    }
     evaluate_with(ctx, mode, attrs, i, "", &|i| Some(build(attrs, mode, i)));
 }
 
